@@ -80,56 +80,7 @@ partial def parseEntries : Nat → List String → Option (List Key × List Val 
     pure (key :: ks, v :: vs, r2)
 end
 
-def pyroName : PyroCls → String
-  | .uri => "Pyro5.core.URI"
-  | .proxy => "Pyro5.client.Proxy"
-  | .daemon => "Pyro5.server.Daemon"
-  | .wrapper => "Pyro5.core._ExceptionWrapper"
-  | .serpentSer => "Pyro5.serializers.SerpentSerializer"
-  | .marshalSer => "Pyro5.serializers.MarshalSerializer"
-  | .jsonSer => "Pyro5.serializers.JsonSerializer"
-  | .msgpackSer => "Pyro5.serializers.MsgpackSerializer"
-
-def clsName : Cls → String
-  | .pyro c => pyroName c
-  | .exc q => String.ofList q
-  | .custom t => "custom:" ++ strToHex t
-
-def renderKey : Key → String
-  | .str s => "S" ++ strToHex s
-  | .other l => "O" ++ l
-
-mutual
-partial def render : Val → String
-  | .atom _ l => "A" ++ l
-  | .blob _ l => "A" ++ l
-  | .str s => "S" ++ strToHex s
-  | .bytes b => "B" ++ bytesToHex b
-  | .list xs => "L[" ++ renderList xs ++ "]"
-  | .tuple xs => "T[" ++ renderList xs ++ "]"
-  | .set xs => "E[" ++ renderList xs ++ "]"
-  | .dict ks vs => "D[" ++ ",".intercalate ((ks.zip vs).map fun (k, v) => renderKey k ++ "=" ++ render v) ++ "]"
-  | .ext _ raw _ _ => "A" ++ raw
-  | .inst (.pyro .proxy) ps => "I" ++ pyroName .proxy ++ "(" ++ renderList (ps.drop 4) ++ ")"
-  | .inst c ps => "I" ++ clsName c ++ "(" ++ renderList ps ++ ")"
-partial def renderList (xs : List Val) : String := ",".intercalate (xs.map render)
-end
-
-def renderErr : Err → String
-  | .security => "Security"
-  | .serialize => "Serialize"
-  | .lookup => "Lookup"
-  | .typeAttr => "TypeAttr"
-  | .value => "Value"
-  | .assertion => "Assertion"
-  | .ext .ctor => "ext:ctor"
-  | .ext .setattr => "ext:setattr"
-  | .ext .float => "ext:float"
-  | .ext .uri => "ext:uri"
-  | .ext .mkset => "ext:mkset"
-  | .ext .exthook => "ext:exthook"
-  | .unmodelled => "Unmodelled"
-  | .fuel => "Fuel"
+def clsName (c : Cls) : String := String.ofList (clsNameL c)
 
 def renderEffect : Effect → String
   | .convert t => "conv:" ++ strToHex t
@@ -139,14 +90,6 @@ def renderEffect : Effect → String
   | .setattr _ _ => "set"
   | .pureCall w => "pure:" ++ w
   | .logWarn => "warn"
-
-def mkExt (spec : String) : Ext where
-  ctorOk := fun c _ => !(spec == "ctor:" ++ clsName c)
-  setattrOk := fun _ _ _ => spec != "setattr"
-  floatOk := fun _ => spec != "float"
-  uriOk := fun _ => spec != "uri"
-  setOk := fun _ => spec != "mkset"
-  extOk := fun _ _ => spec != "exthook"
 
 def parseSer : String → Option Ser
   | "serpent" => some .serpent
@@ -158,13 +101,13 @@ def parseSer : String → Option Ser
 def parseReg (s : String) : Option (List Str) :=
   if s == "-" then some [] else (s.splitOn ",").mapM hexToStr
 
-def callExtHook : Bool := Pyro.Gen.C04.msgpackLoadsCallKw.contains "ext_hook=self.ext_hook"
+def callExtHook : Bool := Pyro.Gen.C04.msgpackCallExtHook
 
 def step : List String → String
   | op :: ser :: reg :: spec :: toks =>
     match parseSer ser, parseReg reg, parseVal toks with
     | some s, some r, some (v, []) =>
-      let E : Env := { reg := r, ext := mkExt spec }
+      let E : Env := { reg := r, ext := mkExtL spec.toList }
       let out : Option (M Val) :=
         if op == "loads" then some (loads E s (fuelFor v) v)
         else if op == "call" then some (loadsCall E callExtHook s (fuelFor v) v)
@@ -174,8 +117,8 @@ def step : List String → String
       | some (res, log) =>
         let fx := if log.isEmpty then "-" else ",".intercalate (log.map renderEffect)
         match res with
-        | .ok w => "ok " ++ render w ++ " " ++ fx
-        | .error e => "err " ++ renderErr e ++ " " ++ fx
+        | .ok w => "ok " ++ String.ofList (renderL w) ++ " " ++ fx
+        | .error e => "err " ++ String.ofList (renderErrL e) ++ " " ++ fx
     | _, _, _ => "bad-line"
   | _ => "bad-line"
 
